@@ -1,7 +1,501 @@
-//! C14: correspondence + oracle runs (sub-commands `c14` / `c14-*`).
+//! C14: correspondence + oracle runs (sub-commands `c14-*` of hfull).
+//!
+//!   * `c14-dhcps` (builder codec-b): the malformed DHCP stream of hcore's `c14-dhcp`, fed to the
+//!     real `DhcpServer::demux` (which lives in the `elvis` crate, hence in this binary).
+//!   * `c14-dnssim` (builder codec-b): malformed DNS datagrams against the real `DnsServer` and the real
+//!     `DnsClient` in a two-machine simulation (`run_internet`, so every op runs in a child process: the
+//!     simulator's panic hook exits the process).  Op lines: `srv <datagram>`, `cli <name> <response>`.
+//!     Op lines of c14-dhcps: `sdemux <fetch> <hex> <pool>`; `pool` = the single address the server's generator
+//!     holds (`-` = exhausted), `fetch` = what `fetch_ip()` yields for that pool (for the model).
 use hcommon::*;
 
+// the generators / classification of the hcore side are shared by inclusion (elvis-core + hcommon only)
+#[path = "../../../hcore/src/props/c14.rs"]
+#[allow(dead_code)]
+mod core_c14;
+
 pub fn run(args: &Args) {
-    eprintln!("hfull: {} not implemented yet", args.prop);
-    std::process::exit(2);
+    match args.prop.as_str() {
+        "c14-dhcps" | "c14-dhcps-v0" => dhcps::run(args),
+        "c14-dnssim" | "c14-dnssim-v0" => dnssim::run(args),
+        _ => {
+            eprintln!("hfull: {} not implemented yet", args.prop);
+            std::process::exit(2);
+        }
+    }
+}
+
+mod dhcps {
+    use super::core_c14::codec_b::{classify, dec_dhcp, fail, flush_failures, ip, ipn, malformed_case, biased, Decoded, Proto, Recorder};
+    use elvis::applications::DhcpServer;
+    use elvis::ip_generator::{IpGenerator, IpRange};
+    use elvis_core::{Control, Machine, Message, Protocol};
+    use hcommon::*;
+    use std::sync::Arc;
+
+    fn pool_of(tok: &str) -> Option<IpGenerator> {
+        if tok == "-" {
+            Some(IpGenerator::none())
+        } else {
+            let n: u32 = tok.parse().ok()?;
+            Some(IpGenerator::new(IpRange::new(ip(n), ip(n))))
+        }
+    }
+
+    fn apply(line: &str, out: &mut Out) {
+        let w: Vec<&str> = line.split_whitespace().collect();
+        let ans = (|| -> Option<String> {
+            let ["sdemux", fetch, h, pool] = w.as_slice() else { return None };
+            let bs = unhex(h);
+            let gen = pool_of(pool)?;
+            // the op line must state what this pool yields (it is the model's input)
+            let yields = gen.clone().fetch_ip().map(|a| ipn(a).to_string()).unwrap_or("-".into());
+            if yields != *fetch {
+                return None;
+            }
+            let server = DhcpServer::new(ip(0x7b7b7b7b), IpRange::new(ip(1), ip(1)));
+            *server.ip_generator.write().unwrap() = gen;
+            let before = format!("{:?}", server.ip_generator.read().unwrap());
+            let decoded = dec_dhcp(&bs);
+            let rec = Arc::new(Recorder::default());
+            let r = catch(|| server.demux(Message::new(bs.clone()), rec.clone(), Control::new(), Machine::new().arc()));
+            let sends: Vec<Vec<u8>> = rec.0.lock().map(|v| v.clone()).unwrap_or_default();
+            let after = server.ip_generator.read().map(|g| format!("{:?}", g)).unwrap_or_else(|_| "poisoned".into());
+            Some(match r {
+                Err(p) => {
+                    let (site, ident) = classify(&p);
+                    out.count(&format!("sdemux.{}", site));
+                    // a well-formed Discover on an exhausted pool is the code's acknowledged TODO (C15), not malformed input
+                    if site != "panic:unwrap:dhcp_server_fetch_ip" {
+                        fail(out, &format!("DhcpServer::demux panicked ({}) on datagram {}", site, hex(&bs)), &ident);
+                    }
+                    site
+                }
+                Ok(res) => {
+                    let accepted = matches!(decoded, Decoded::Ok { .. });
+                    if !accepted && (!sends.is_empty() || before != after) {
+                        fail(
+                            out,
+                            &format!("DhcpServer::demux did not drop an undecodable datagram {} (result {:?}, {} sends, pool changed: {})", hex(&bs), res, sends.len(), before != after),
+                            "demux-not-dropped dhcp-server",
+                        );
+                    }
+                    let ans = match (res, sends.len(), &decoded) {
+                        (_, 0, _) if before == after => "none".to_string(),
+                        (Ok(()), 1, _) => format!("sent {}", hex(&sends[0])),
+                        (Ok(()), 0, Decoded::Ok { v, .. }) => format!("released {}", v.yip),
+                        (r, n, _) => format!("other {:?} {}", r, n),
+                    };
+                    out.count(&format!("sdemux.{}", ans.split(' ').next().unwrap_or("")));
+                    ans
+                }
+            })
+        })();
+        match ans {
+            Some(a) => out.line(line, &a),
+            None => out.line(line, "bad-op"),
+        }
+        flush_failures(out);
+    }
+
+    pub fn run(args: &Args) {
+        let mut out = Out::new(&args.out);
+        out.max_failures = 40;
+        let rule = "the malformed DHCP stream (valid packet, every truncation, every message type code, non-UTF-8 strings, field mutations, random bytes) fed to DhcpServer::demux with a one-address or an exhausted pool; oracles: no panic (except the documented exhausted-pool unwrap on a well-formed Discover), an undecodable datagram is dropped: Err, nothing sent, pool unchanged; a case is non-trivial if it saw a reply, a release and a drop; distinct = hash of the op lines";
+        if let Some(rp) = &args.replay {
+            out.begin_case(0);
+            out.mark_nontrivial();
+            for l in read_ops(rp) {
+                if !l.starts_with("case ") {
+                    apply(&l, &mut out);
+                }
+            }
+            out.end_case();
+            out.finish(rule);
+            return;
+        }
+        let mut rng = Rng::new(args.seed ^ 0x5d5d_0000);
+        for c in 0..args.cases {
+            let mut r = rng.fork();
+            out.begin_case(c);
+            // case 0 of the hcore stream is the 9000-line UTF-8 table sweep; take a slice of it
+            let mut ops = malformed_case(Proto::Dhcp, c, &mut r);
+            if c == 0 {
+                ops = ops.into_iter().step_by(7).collect();
+            }
+            let (mut sent, mut dropped, mut released) = (0, 0, 0);
+            for op in ops {
+                let Some(h) = op.split_whitespace().nth(1) else { continue };
+                let pool = if r.chance(1, 8) { "-".to_string() } else { (biased(&mut r, 32) as u32).to_string() };
+                let fetch = pool_of(&pool).and_then(|mut g| g.fetch_ip()).map(|a| ipn(a).to_string()).unwrap_or("-".into());
+                let line = format!("sdemux {} {} {}", fetch, h, pool);
+                let before = (out.hist.get("sdemux.sent").copied().unwrap_or(0), out.hist.get("sdemux.none").copied().unwrap_or(0), out.hist.get("sdemux.released").copied().unwrap_or(0));
+                apply(&line, &mut out);
+                sent += out.hist.get("sdemux.sent").copied().unwrap_or(0) - before.0;
+                dropped += out.hist.get("sdemux.none").copied().unwrap_or(0) - before.1;
+                released += out.hist.get("sdemux.released").copied().unwrap_or(0) - before.2;
+            }
+            if (sent > 0 && dropped > 0 && released > 0) || c == 0 {
+                out.mark_nontrivial();
+            }
+            out.end_case();
+        }
+        out.finish(rule);
+    }
+}
+
+/// Full-stack DNS: what the real DnsServer / DnsClient do with an arbitrary datagram.
+mod dnssim {
+    use super::core_c14::codec_b::{dl, fail, flush_failures, spec_dns, utf8_table, DnsV};
+    use elvis_core::protocol::{DemuxError, StartError};
+    use elvis_core::protocols::dns::{dns_client::DnsClient, dns_server::DnsServer};
+    use elvis_core::protocols::ipv4::{Ipv4, Ipv4Address, Recipient};
+    use elvis_core::protocols::socket_api::socket::{ProtocolFamily, SocketType};
+    use elvis_core::protocols::{tcp::Tcp, udp::Udp, Arp, Endpoint, Pci, SocketAPI};
+    use elvis_core::{new_machine_arc, run_internet_with_timeout, Control, ExitStatus, IpTable, Machine, Message, Network, Protocol, Session, Shutdown};
+    use hcommon::*;
+    use std::sync::{Arc, Mutex};
+    use std::time::Duration;
+    use tokio::sync::Barrier;
+
+    type Slot = Arc<Mutex<Option<String>>>;
+
+    /// sends one datagram to the DNS server and reports what comes back
+    struct Prober {
+        payload: Vec<u8>,
+        result: Slot,
+    }
+    #[async_trait::async_trait]
+    impl Protocol for Prober {
+        async fn start(&self, shutdown: Shutdown, initialized: Arc<Barrier>, machine: Arc<Machine>) -> Result<(), StartError> {
+            let sockets = machine.protocol::<SocketAPI>().unwrap();
+            let mut socket = sockets.new_socket(ProtocolFamily::INET, SocketType::Datagram, machine).await.unwrap();
+            initialized.wait().await;
+            socket.connect(Endpoint::new(Ipv4Address::DNS_AUTH, 53)).await.unwrap();
+            socket.send(self.payload.clone()).unwrap();
+            let r = tokio::time::timeout(Duration::from_millis(300), socket.recv_msg()).await;
+            *self.result.lock().unwrap() = Some(match r {
+                Ok(Ok(m)) => format!("reply {}", hex(&m.to_vec())),
+                _ => "noreply".to_string(),
+            });
+            shutdown.shut_down_with_status(ExitStatus::Status(7));
+            Ok(())
+        }
+        fn demux(&self, _m: Message, _c: Arc<dyn Session>, _k: Control, _ma: Arc<Machine>) -> Result<(), DemuxError> {
+            Ok(())
+        }
+    }
+
+    /// answers the first datagram on port 53 with fixed bytes (`None`: reads it and never answers)
+    struct FakeDns {
+        response: Option<Vec<u8>>,
+    }
+
+    /// ends the simulation after a while (the resolver may be left waiting for an answer that never comes)
+    struct Stopper;
+    #[async_trait::async_trait]
+    impl Protocol for Stopper {
+        async fn start(&self, shutdown: Shutdown, initialized: Arc<Barrier>, _machine: Arc<Machine>) -> Result<(), StartError> {
+            initialized.wait().await;
+            tokio::time::sleep(Duration::from_millis(500)).await;
+            shutdown.shut_down_with_status(ExitStatus::Status(8));
+            Ok(())
+        }
+        fn demux(&self, _m: Message, _c: Arc<dyn Session>, _k: Control, _ma: Arc<Machine>) -> Result<(), DemuxError> {
+            Ok(())
+        }
+    }
+    #[async_trait::async_trait]
+    impl Protocol for FakeDns {
+        async fn start(&self, _shutdown: Shutdown, initialized: Arc<Barrier>, machine: Arc<Machine>) -> Result<(), StartError> {
+            let sockets = machine.protocol::<SocketAPI>().unwrap();
+            let mut listen = sockets.new_socket(ProtocolFamily::INET, SocketType::Datagram, machine).await.unwrap();
+            listen.bind(Endpoint::new(Ipv4Address::from([0, 0, 0, 0]), 53)).unwrap();
+            listen.listen(10).unwrap();
+            initialized.wait().await;
+            if let Ok(mut s) = listen.accept().await {
+                if s.recv_msg().await.is_ok() {
+                    if let Some(r) = &self.response {
+                        let _ = s.send(r.clone());
+                    }
+                }
+                // keep the socket alive until the simulation ends
+                tokio::time::sleep(Duration::from_millis(2000)).await;
+            }
+            Ok(())
+        }
+        fn demux(&self, _m: Message, _c: Arc<dyn Session>, _k: Control, _ma: Arc<Machine>) -> Result<(), DemuxError> {
+            Ok(())
+        }
+    }
+
+    /// asks the machine's DnsClient for a name and reports what it returns
+    struct Resolver {
+        name: String,
+        result: Slot,
+    }
+    #[async_trait::async_trait]
+    impl Protocol for Resolver {
+        async fn start(&self, shutdown: Shutdown, initialized: Arc<Barrier>, machine: Arc<Machine>) -> Result<(), StartError> {
+            initialized.wait().await;
+            let dns = machine.protocol::<DnsClient>().unwrap();
+            // no timeout around the call: when no answer comes the resolver is still inside `recv_msg` at shutdown
+            let r = dns.get_host_by_name(self.name.clone(), machine.clone()).await;
+            *self.result.lock().unwrap() = Some(match r {
+                Ok(ip) => format!("ip {}", u32::from_be_bytes(ip.to_bytes())),
+                Err(_) => "err".to_string(),
+            });
+            shutdown.shut_down_with_status(ExitStatus::Status(7));
+            Ok(())
+        }
+        fn demux(&self, _m: Message, _c: Arc<dyn Session>, _k: Control, _ma: Arc<Machine>) -> Result<(), DemuxError> {
+            Ok(())
+        }
+    }
+
+    /// child process: run ONE op in a fresh simulation, print its outcome; a panic anywhere exits with code 1
+    /// through the panic hook `run_internet` installs (that is the behaviour under test)
+    pub fn child(op: &str) {
+        // `run_internet` wraps the hook installed here: it calls it first, then captures a backtrace (slow) and
+        // exits with code 1.  This hook reports the panic location and exits at once (code 101), so that the
+        // verdict "a panic ended the process" does not race with the end of the simulation.
+        std::panic::set_hook(Box::new(|info| {
+            let (f, l, c) = info.location().map(|l| (l.file().to_string(), l.line(), l.column())).unwrap_or(("?".into(), 0, 0));
+            eprintln!("panicked at {}:{}:{}:", f, l, c);
+            std::process::exit(101);
+        }));
+        let w: Vec<&str> = op.split_whitespace().collect();
+        // virtual time: the timeouts below are exact and independent of machine load
+        let rt = tokio::runtime::Builder::new_current_thread().enable_all().start_paused(true).build().unwrap();
+        let result: Slot = Default::default();
+        let network = Network::basic();
+        let ip_table: IpTable<Recipient> = [("0.0.0.0/0", Recipient::new(0, None))].into_iter().collect();
+        let client_ip: Ipv4Address = [123, 45, 67, 60].into();
+        let machines = match w.as_slice() {
+            ["srv", h] => vec![
+                new_machine_arc![
+                    Udp::new(),
+                    Tcp::new(),
+                    Ipv4::new(ip_table.clone()),
+                    Arp::new(),
+                    Pci::new([network.clone()]),
+                    SocketAPI::new(Some(Ipv4Address::DNS_AUTH)),
+                    DnsServer::new(1),
+                ],
+                new_machine_arc![
+                    Udp::new(),
+                    Tcp::new(),
+                    Ipv4::new(ip_table.clone()),
+                    Arp::new(),
+                    Pci::new([network.clone()]),
+                    SocketAPI::new(Some(client_ip)),
+                    Prober { payload: unhex(h), result: result.clone() },
+                ],
+            ],
+            ["cli", n, h] => vec![
+                new_machine_arc![
+                    Udp::new(),
+                    Tcp::new(),
+                    Ipv4::new(ip_table.clone()),
+                    Arp::new(),
+                    Pci::new([network.clone()]),
+                    SocketAPI::new(Some(Ipv4Address::DNS_AUTH)),
+                    FakeDns { response: if *h == "noreply" { None } else { Some(unhex(h)) } },
+                ],
+                new_machine_arc![
+                    Udp::new(),
+                    Tcp::new(),
+                    Ipv4::new(ip_table.clone()),
+                    Arp::new(),
+                    Pci::new([network.clone()]),
+                    SocketAPI::new(Some(client_ip)),
+                    DnsClient::new(),
+                    Resolver { name: String::from_utf8(unhex(n)).unwrap_or_default(), result: result.clone() },
+                    Stopper,
+                ],
+            ],
+            _ => {
+                println!("OUTCOME bad-op");
+                return;
+            }
+        };
+        let status = rt.block_on(run_internet_with_timeout(&machines, Duration::from_secs(3)));
+        // a task that was woken by the shutdown may still be finishing (or panicking: the hook then exits)
+        for _ in 0..30 {
+            if result.lock().unwrap().is_some() {
+                break;
+            }
+            std::thread::sleep(Duration::from_millis(10));
+        }
+        let r = result.lock().unwrap().clone().unwrap_or_else(|| format!("no-result {:?}", status));
+        println!("OUTCOME {}", r);
+        // do not wait for runtime shutdown (tasks may be parked on sockets)
+        std::process::exit(0);
+    }
+
+    fn classify_stderr(stderr: &str) -> (String, String) {
+        // "thread '…' panicked at <file>:<line>:<col>:" — the FIRST panic is the one that killed the process
+        for l in stderr.lines() {
+            if let Some(pos) = l.find("panicked at ") {
+                let loc = l[pos + 12..].trim().trim_end_matches(':');
+                let mut parts = loc.rsplitn(3, ':');
+                let _col = parts.next();
+                let line: u32 = parts.next().and_then(|x| x.parse().ok()).unwrap_or(0);
+                let file = parts.next().unwrap_or("?").to_string();
+                let text = source_line_text(&file, line);
+                let base = file.rsplit('/').next().unwrap_or("").to_string();
+                let site = match (base.as_str(), text.as_str()) {
+                    ("dns_server.rs", t) if t.starts_with("let req_msg = DnsMessage::from_bytes(") && t.contains(".unwrap()") => "panic:unwrap:dns_server_from_bytes".to_string(),
+                    ("dns_server.rs", t) if t.starts_with("let name = req_msg.question.query_name().unwrap()") => "panic:unwrap:dns_server_query_name".to_string(),
+                    ("dns_server.rs", t) if t.starts_with("DnsServer::respond_to_query(table, socket).await.unwrap()") => "panic:unwrap:dns_server_task".to_string(),
+                    ("dns_server.rs", t) if t.starts_with("let response = socket.recv(80).await.unwrap()") => "panic:unwrap:dns_server_recv".to_string(),
+                    ("dns_client.rs", t) if t.starts_with("let resp = socket.recv_msg().await.unwrap()") => "panic:unwrap:dns_client_recv".to_string(),
+                    ("dns_client.rs", t) if t.starts_with("let res_msg = DnsMessage::from_bytes(resp.iter()).unwrap()") => "panic:unwrap:dns_client_from_bytes".to_string(),
+                    ("dns_client.rs", t) if t.starts_with("let name_to_add = String::from_utf8(res_msg.answer.name).unwrap()") => "panic:unwrap:dns_client_answer_name".to_string(),
+                    ("dns_client.rs", t) if t.starts_with("let ip_to_add = Ipv4Address::new([rdata[0]") => "panic:index:dns_client_rdata".to_string(),
+                    ("dns_client.rs", t) if t.starts_with("Ok(self.get_mapping(&name).unwrap())") => "panic:unwrap:dns_client_get_mapping".to_string(),
+                    ("dns_parsing.rs", t) if t.starts_with("let name = String::from_utf8(self.qname.clone()).unwrap()") => "panic:unwrap:dns_query_name".to_string(),
+                    _ => format!("panic:other:{}:{}", base, text.replace(' ', "_")),
+                };
+                return (site, format!("panic {} {}", base, text));
+            }
+        }
+        ("panic:other:unknown".to_string(), "panic unknown".to_string())
+    }
+
+    /// run one op in a child process: (answer, Some((what, ident)) if the process died)
+    fn exec(line: &str) -> (String, Option<(String, String)>) {
+        let exe = std::env::current_exe().unwrap();
+        let o = std::process::Command::new(exe).arg("c14-dnssim").arg("--child").arg(line).output();
+        match o {
+            Err(e) => (format!("spawn-failed {}", e), None),
+            Ok(o) => {
+                let stdout = String::from_utf8_lossy(&o.stdout);
+                let outcome = stdout.lines().rev().find_map(|l| l.strip_prefix("OUTCOME ")).map(|s| s.to_string());
+                match (o.status.code(), outcome) {
+                    (Some(0), Some(r)) => (r, None),
+                    _ => {
+                        let (site, ident) = classify_stderr(&String::from_utf8_lossy(&o.stderr));
+                        let what = format!("the simulation process died ({}) on `{}`", site, &line[..line.len().min(300)]);
+                        (site, Some((what, ident)))
+                    }
+                }
+            }
+        }
+    }
+
+    /// execute a batch of op lines (children run concurrently, results are recorded in op order)
+    fn apply_all(lines: &[String], out: &mut Out) {
+        let results: Vec<(String, Option<(String, String)>)> = std::thread::scope(|sc| {
+            let hs: Vec<_> = lines.iter().map(|l| sc.spawn(move || exec(l))).collect();
+            hs.into_iter().map(|h| h.join().unwrap_or(("thread-failed".into(), None))).collect()
+        });
+        for (line, (ans, failure)) in lines.iter().zip(results) {
+            out.count(&format!("sim.{}", ans.split(' ').next().unwrap_or("")));
+            out.line(line, &ans);
+            if let Some((what, ident)) = failure {
+                fail(out, &what, &ident);
+            }
+            flush_failures(out);
+        }
+    }
+
+    fn base(rng: &mut Rng, name: &[u8]) -> DnsV {
+        DnsV {
+            hdr: [rng.next() as u16, 0, 0, 0, 0, 0],
+            qname: name.to_vec(),
+            qtype: 1,
+            qclass: 1,
+            name: name.to_vec(),
+            rtype: 1,
+            class: 1,
+            ttl: rng.next() as u32,
+            rdlength: 4,
+            rdata: rng.bytes(4),
+        }
+    }
+
+    fn gen_ops(rng: &mut Rng) -> Vec<String> {
+        let names: [&[u8]; 4] = [b"google.com", b"testserver.com", b"x", b"nosuchname.org"];
+        let table = utf8_table();
+        let not_delim = |v: Vec<u8>| -> Vec<u8> { v.into_iter().map(|x| if x == dl() { b'_' } else { x }).collect() };
+        let mut ops = vec![];
+        let name = *rng.pick(&names);
+        // --- server side
+        let q = base(rng, name);
+        let b = spec_dns(&q);
+        ops.push(format!("srv {}", hex(&b)));
+        let n = rng.below(b.len() as u64) as usize;
+        ops.push(format!("srv {}", hex(&b[..n])));
+        let mut w = q.clone();
+        w.qname = not_delim(rng.pick(&table).clone());
+        ops.push(format!("srv {}", hex(&spec_dns(&w))));
+        let mut w = q.clone();
+        w.rdlength = *rng.pick(&[0u16, 3, 5, 0xffff]);
+        ops.push(format!("srv {}", hex(&spec_dns(&w))));
+        let n = rng.below(40) as usize + 1;
+        ops.push(format!("srv {}", hex(&rng.bytes(n))));
+        // --- client side: the response is whatever the (fake) server says
+        let mut r = base(rng, name);
+        r.hdr[1] = 0x8000;
+        let good = spec_dns(&r);
+        ops.push(format!("cli {} {}", hex(name), hex(&good)));
+        let n = rng.below(good.len() as u64) as usize;
+        ops.push(format!("cli {} {}", hex(name), hex(&good[..n])));
+        let mut w = r.clone();
+        w.name = not_delim(rng.pick(&table).clone());
+        ops.push(format!("cli {} {}", hex(name), hex(&spec_dns(&w))));
+        let mut w = r.clone();
+        let l = rng.below(4) as usize;
+        w.rdata.truncate(l);
+        w.rdlength = l as u16;
+        ops.push(format!("cli {} {}", hex(name), hex(&spec_dns(&w))));
+        let mut w = r.clone();
+        w.name = b"other.example".to_vec();
+        ops.push(format!("cli {} {}", hex(name), hex(&spec_dns(&w))));
+        let mut w = r.clone();
+        w.rdata = rng.bytes(9);
+        w.rdlength = 9;
+        ops.push(format!("cli {} {}", hex(name), hex(&spec_dns(&w))));
+        let n = rng.below(40) as usize + 1;
+        ops.push(format!("cli {} {}", hex(name), hex(&rng.bytes(n))));
+        if rng.chance(1, 4) {
+            ops.push(format!("cli {} noreply", hex(name)));
+            ops.push("srv -".to_string());
+        }
+        ops
+    }
+
+    pub fn run(args: &Args) {
+        if let Some(op) = args.extra.get("child") {
+            // (parse_args reads `--child <op>` as one key/value pair; the op line is a single argument)
+            child(op);
+            return;
+        }
+        let mut out = Out::new(&args.out);
+        out.max_failures = 40;
+        let rule = "two-machine simulations (run_internet, one child process per op): `srv` sends one datagram (valid query for a known/unknown name, truncation, non-UTF-8 query name, inconsistent rdlength, random bytes) to the real DnsServer and records the reply; `cli` lets the real DnsClient resolve a name against a fake server that answers with the given bytes (valid answer, truncation, non-UTF-8 answer name, record shorter/longer than 4 bytes, answer for another name, random bytes); oracle: the process survives (no panic reaches the simulator's exit-on-panic hook); a case is non-trivial if it saw a reply, an address and a rejection; distinct = hash of the op lines";
+        if let Some(rp) = &args.replay {
+            out.begin_case(0);
+            out.mark_nontrivial();
+            let ls: Vec<String> = read_ops(rp).into_iter().filter(|l| !l.starts_with("case ")).collect();
+            for chunk in ls.chunks(6) {
+                apply_all(chunk, &mut out);
+            }
+            out.end_case();
+            out.finish(rule);
+            return;
+        }
+        let mut rng = Rng::new(args.seed ^ 0xd25_0000);
+        for c in 0..args.cases {
+            let mut r = rng.fork();
+            out.begin_case(c);
+            for chunk in gen_ops(&mut r).chunks(6) {
+                apply_all(chunk, &mut out);
+            }
+            out.mark_nontrivial();
+            out.end_case();
+        }
+        out.finish(rule);
+    }
 }
